@@ -157,8 +157,11 @@ impl Property for C11 {
     fn id(&self) -> &'static str {
         "C11"
     }
+    fn regimes(&self) -> &'static str {
+        crate::gen::REGIMES_CATALOGUE
+    }
     fn rule(&self) -> String {
-        "proptest: the same inputs go through new/mrhs and new_parallel/mrhs_parallel; the parallel problem runs inside a dedicated rayon pool (three generated sizes per case, 1..16); hand-written models burn a per-(parameter, call) amount of CPU in eval_partial_deriv, builder-made models a per-call amount in every closure, to perturb which worker finishes first. Differential oracle (bitwise): coefficients, residuals, Jacobian after every update of an LM run driven on the sequential problem and mirrored on the parallel one; whole fits (termination, evaluations, alpha_hat, C_hat, residuals, objective); into_sequential() preserves the state. Non-trivial: a pool of >= 2 workers and P >= 2 (more than one Jacobian column to distribute)".into()
+        "proptest: the same inputs go through new/mrhs and new_parallel/mrhs_parallel; the parallel problem runs inside a dedicated rayon pool (three generated sizes per case, 1..16); hand-written models burn a per-(parameter, call) amount of CPU in eval_partial_deriv, builder-made models a per-call amount in every closure, to perturb which worker finishes first. Differential oracle (bitwise): coefficients, residuals, Jacobian after every update of an LM run driven on the sequential problem and mirrored on the parallel one; whole fits (termination, evaluations, alpha_hat, C_hat, residuals, objective); into_sequential() preserves the state. A quarter of the cases add two caller updates that differ only in the sign of a zero coordinate. Non-trivial: a pool of >= 2 workers and P >= 2 (more than one Jacobian column to distribute)".into()
     }
     fn assumptions(&self) -> Vec<String> {
         vec!["rayon's schedule is sampled (pool sizes x jitter x repetitions), not enumerated".into()]
